@@ -238,7 +238,12 @@ inline Rational ratFromString(const char* desc)
          else
             res = Rational(s);
 
-         res *= pow(10, mult);
+         // scale by the exact power of ten: pow(10, mult) in double precision is inexact for every negative and for
+         // large positive exponents, which would silently change the number that was written
+         if(mult > 0)
+            res *= Rational(boost::multiprecision::pow(Integer(10), (unsigned int) mult));
+         else if(mult < 0)
+            res /= Rational(boost::multiprecision::pow(Integer(10), (unsigned int)(-mult)));
       }
    }
 
